@@ -95,6 +95,9 @@ type node interface {
 	// setModTime sets the modification time of the node.
 	setModTime(mtime time.Time, u avfs.UserReader) bool
 
+	// mayChown returns true if the user u may set the owner and the group of the node to uid and gid.
+	mayChown(uid, gid int, u avfs.UserReader) bool
+
 	// setOwner sets the owner of the node.
 	setOwner(uid, gid int)
 
